@@ -60,6 +60,16 @@ class AbsObj:
         self.cls, self.ident, self.attrs = cls, ident, attrs or {}
 
 
+class ViewCell:
+    """heap content: a numpy basic-index view (a[i], a[lo:hi], a[:, None], a[::-1]) of another array cell.
+    Reading it re-derives the elements from the CURRENT content of the base, so writes to the base are seen
+    through the view, as in numpy.  Writing through a view is outside the subset."""
+    __slots__ = ('base', 'shape', 'mapfn', 'kind')
+
+    def __init__(self, base, shape, mapfn, kind):
+        self.base, self.shape, self.mapfn, self.kind = base, tuple(shape), mapfn, kind
+
+
 class State:
     def __init__(self, env=None, heap=None, pc=None, ver=None, views=None, trace=None, tags=None):
         self.tags = tags if tags is not None else {}       # id of a pc term -> tag (see core.Scoped)
@@ -81,14 +91,14 @@ class State:
         return Ref(i)
 
     def get(self, ref):
-        if ref.id in self.views:
-            b, v = self.views[ref.id]
-            if self.ver.get(b, 0) != v:
-                raise Unsupported('read of a slice view after its base array was written')
-        return self.heap[ref.id]
+        cell = self.heap[ref.id]
+        if isinstance(cell, ViewCell):
+            base = self.get(cell.base)
+            return Arr(cell.shape, lambda ix, base=base, cell=cell: base.elem(cell.mapfn(ix)), cell.kind)
+        return cell
 
     def put(self, ref, content):
-        if ref.id in self.views:
+        if isinstance(self.heap.get(ref.id), ViewCell):
             raise Unsupported('write through a slice view')
         self.heap[ref.id] = content
         self.ver[ref.id] = self.ver.get(ref.id, 0) + 1
@@ -720,7 +730,7 @@ class Exec:
                         if isinstance(tt, ast.Name):
                             if isinstance(n, ast.AugAssign):
                                 r = st.env.get(tt.id)
-                                if isinstance(r, Ref) and isinstance(st.heap.get(r.id), Arr):
+                                if isinstance(r, Ref) and isinstance(st.heap.get(r.id), (Arr, ViewCell)):
                                     cells.add(r.id)
                                     continue
                             names.add(tt.id)
@@ -1151,7 +1161,7 @@ class Exec:
 
     # ---- arithmetic
     def is_arr(self, v, st):
-        return isinstance(v, Ref) and isinstance(st.heap.get(v.id), Arr)
+        return isinstance(v, Ref) and isinstance(st.heap.get(v.id), (Arr, ViewCell))
 
     def ev_BinOp(self, node, st):
         a = self.eval(node.left, st)
@@ -1542,9 +1552,19 @@ class Exec:
                 else:
                     o += 1
             return a.elem(tuple(src))
-        r = st.alloc(self.c, Arr(tuple(shape), el, a.kind))
-        st.views[r.id] = (ref.id, st.ver.get(ref.id, 0))
-        return r
+        def mapfn(ix, plan=plan):
+            src = []
+            o = 0
+            for p in plan:
+                if p[0] == 'i':
+                    src.append(p[1])
+                elif p[0] == 's':
+                    src.append(_add(p[1], ix[o]) if p[3] == 1 else _sub(p[1], ix[o]))
+                    o += 1
+                else:
+                    o += 1
+            return tuple(src)
+        return st.alloc(self.c, ViewCell(ref, tuple(shape), mapfn, a.kind))
 
     def fancy_index(self, ref, a, plan, st, node):
         # 1-D integer / boolean array index on a 1-D array (permutations, masks via lib.where)
